@@ -581,6 +581,8 @@ class Engine(object):
             return v.length > 0
         if isinstance(v, SBytes):
             return z3.Length(v.t) > 0
+        if isinstance(v, SStr):
+            return NONEMPTY(v.t)        # uninterpreted predicate on the opaque string sort
         if isinstance(v, SRef):
             cls = v.cls
             if cls is not None and isinstance(cls, ClassInfo) and cls.lookup('__len__'):
